@@ -261,8 +261,9 @@ func OracleC10(rc *sim.RunCtx, w *world.World, prior world.DevState, rec *world.
 
 func runC10(rc *sim.RunCtx) {
 	h, err := NewHist(rc, HistOpts{Profiles: []string{"core", "presence", "choice", "core"}, MinTx: 2, MaxTx: 8, Capture: true,
-		Allowed: map[string]bool{"create": true, "change": true, "grow": true, "shrink": true, "reprio": true, "delete": true, "resubmit": true},
-		Oracles: map[string]bool{}})
+		DevKinds: []string{"direct", "direct", "direct", "gnmi-proto", "gnmi-json", "gnmi-json_ietf"},
+		Allowed:  map[string]bool{"create": true, "change": true, "grow": true, "shrink": true, "reprio": true, "delete": true, "resubmit": true},
+		Oracles:  map[string]bool{}})
 	if err != nil {
 		rc.HarnessErr("world: %v", err)
 		return
@@ -274,7 +275,10 @@ func runC10(rc *sim.RunCtx) {
 			return
 		}
 		rec := h.W.Dev.Sets[res.SetsAfter-1]
-		OracleC10(rc, h.W, prior, rec, step, tx)
+		if h.W.Shadow == nil {
+			// direct device: all renderings of the same tree instance (with a wire front end Hist.Step runs the wire leg)
+			OracleC10(rc, h.W, prior, rec, step, tx)
+		}
 		if len(rec.Updates)+len(rec.Deletes) > 0 {
 			rc.NonTrivial()
 		}
